@@ -326,19 +326,42 @@ def rule_ver(ctx) -> None:
     ctx.check(content, "C05.VER", f"{be.qual}/content-derived", be.loc(), "the etag hashes node labels/attrs and edge fields (incl. weights) of the whole graph",
               ("the etag is a hash of (len(nodes), len(edges)) only: re-weighting an edge keeps the etag" if len_only else
                "the etag is not derived from graph content (chained/counter only): two store instances with the same mutation history share etags although their graphs differ"))
-    # (c) index version: every method touching _eps increments _ver; nothing resets it
+    # (c) index version: every write to the episode list is followed, on every normal path, by an increment of the version;
+    #     nothing resets it
     n_m = 0
     for mname, fn in ctx.prog.methods(INDEX).items():
-        touches = any(isinstance(x, ast.Call) and isinstance(x.func, ast.Attribute) and x.func.attr in ("append", "clear", "extend", "pop", "remove", "insert") and src(x.func.value) == "self._eps"
-                      for x in walk_no_defs(fn.node)) or any(isinstance(x, ast.Assign) and any(src(t) == "self._eps" for t in x.targets) for x in walk_no_defs(fn.node) if mname != "__init__")
+        if mname == "__init__":
+            continue
+        cfg = ctx.cfg(fn)
         assigns = [x for x in walk_no_defs(fn.node) if isinstance(x, (ast.Assign, ast.AnnAssign)) and any(src(t) == "self._ver" for t in (x.targets if isinstance(x, ast.Assign) else [x.target]))]
-        if mname != "__init__" and assigns:
+        if assigns:
             ctx.violation("C05.VER", f"{fn.qual}/version-reset", fn.loc(assigns[0]), f"`{src(assigns[0])[:40]}` assigns the index version: it can repeat an earlier value, so the T2 cache (keyed by the version) revives stale results")
-        if touches and mname != "__init__":
-            n_m += 1
-            incs = [x for x in walk_no_defs(fn.node) if isinstance(x, ast.AugAssign) and src(x.target) == "self._ver" and isinstance(x.op, ast.Add)]
-            ctx.check(bool(incs), "C05.VER", f"{fn.qual}/mutation-bumps-version", fn.loc(), "a mutation of the episode list increments the version",
-                      "the episode list is mutated without incrementing the index version")
+        writes = []
+        for n in cfg.nodes:
+            if n.kind != "stmt":
+                continue
+            a = n.ast
+            if isinstance(a, (ast.Assign, ast.AugAssign)):
+                for t in (a.targets if isinstance(a, ast.Assign) else [a.target]):
+                    root = t
+                    while isinstance(root, ast.Subscript):
+                        root = root.value
+                    if src(root) == "self._eps":
+                        writes.append(n)
+            for c in node_calls(n):
+                if isinstance(c.func, ast.Attribute) and c.func.attr in ("append", "clear", "extend", "pop", "remove", "insert", "sort", "reverse") and src(c.func.value) == "self._eps":
+                    writes.append(n)
+            if isinstance(a, ast.Delete) and any("self._eps" in src(t) for t in a.targets):
+                writes.append(n)
+        if not writes:
+            continue
+        n_m += 1
+        incs = [n for n in cfg.nodes if n.kind == "stmt" and isinstance(n.ast, ast.AugAssign) and src(n.ast.target) == "self._ver" and isinstance(n.ast.op, ast.Add)]
+        for w in writes:
+            p = cfg.path([w], lambda x: x is cfg.exit, avoid=lambda x: x in incs, edge_ok=no_exc, include_start=False)
+            ctx.check(bool(incs) and p is None, "C05.VER", ctx.okey(f"{fn.qual}/mutation-bumps-version"), fn.loc(w.ast), "every path from this write of the episode list increments the version",
+                      f"`{src(w.ast)[:50]}` changes the episode list but a path to the return skips `self._ver += 1`: the index version no longer tracks content, so the T2 stage cache and the turn-level "
+                      "cache keep serving the result computed before the change (e.g. an episode re-added under its id with another owner)", ctx.path_witness(fn, p))
     ctx.floor("C05.VER", "InMemoryIndex methods mutating _eps", n_m, 2)
 
 
@@ -361,6 +384,18 @@ def rule_iso(ctx) -> None:
               "_T2_CACHE is process-global but keyed by the per-instance index version only: a second engine state with the same number of adds is served the first state's episodes")
     idx = ctx.func(INDEX + ".__init__")
     ctx.check("_uid" in src(idx.node), "C05.ISO", f"{INDEX}/instance-uid", idx.loc(), "every index instance gets a process-local uid", "InMemoryIndex has no instance discriminator")
+
+
+_EFMEMO: dict = {}
+
+
+def _EF(ctx):
+    from ..effects import Effects
+    k = id(ctx)
+    if k not in _EFMEMO:
+        _EFMEMO.clear()
+        _EFMEMO[k] = Effects(ctx, depth=2)
+    return _EFMEMO[k]
 
 
 def rule_alias(ctx) -> None:
@@ -401,12 +436,32 @@ def rule_alias(ctx) -> None:
                     if any(isinstance(cnd, ast.Name) and cnd.id in alias for cnd in cands):
                         alias.add(x.targets[0].id)
                         changed = True
+                    # result of a helper that can return one of its arguments: acc = merge(acc, part)
+                    if isinstance(v, ast.Call) and x.targets[0].id not in alias:
+                        cal = ctx.prog.callee(f, v)
+                        if cal is not None and cal[0] == "func" and cal[1] in ctx.prog.funcs:
+                            callee = ctx.prog.funcs[cal[1]]
+                            for o in _EF(ctx)._ret_origins(callee):
+                                if o.startswith("param:"):
+                                    ae = _EF(ctx)._actual(v, callee, o[6:])
+                                    if isinstance(ae, ast.Name) and ae.id in alias:
+                                        alias.add(x.targets[0].id)
+                                        changed = True
         for x in walk_no_defs(f.node):
             recv = None
             if isinstance(x, ast.Call) and isinstance(x.func, ast.Attribute) and x.func.attr in ("append", "extend", "sort", "insert", "pop", "clear", "remove", "reverse") and isinstance(x.func.value, ast.Name):
                 recv = x.func.value.id
             if isinstance(x, ast.AugAssign) and isinstance(x.target, ast.Name):
                 recv = x.target.id
+            if isinstance(x, ast.Call) and recv is None:
+                cal = ctx.prog.callee(f, x)
+                if cal is not None and cal[0] == "func" and cal[1] in ctx.prog.funcs and cal[1] != f.qual:
+                    callee = ctx.prog.funcs[cal[1]]
+                    for e in _EF(ctx).of(callee):
+                        if e.kind == "mutate" and e.origin.startswith("param:"):
+                            ae = _EF(ctx)._actual(x, callee, e.origin[6:])
+                            if isinstance(ae, ast.Name) and ae.id in alias:
+                                recv = ae.id
             if recv is not None and recv in alias:
                 ctx.violation("C05.ALIAS", f"T1/{f.name}:{recv}", f.loc(x), f"`{src(x)[:50]}` mutates `{recv}`, which may be the very list stored in (or returned from) the T1 cache: "
                               "later hits return the grown list while a fresh computation does not")
